@@ -62,6 +62,7 @@ class Shadow(object):
         self.addrs = set()
         self.subs = []          # [j, prio, live] insertion order
         self.npend = 0
+        self.resolve = set()    # live DNS request streams
 
     def legal(self, op):
         k = op[0]
@@ -129,8 +130,11 @@ class Shadow(object):
                             break
                 if a is not None and a[1] == 'later':
                     self.npend += 1
+            if st in ('NEWRESOLVE', 'SENTRESOLVE'):
+                self.resolve.add(sid)
             if st in ('FAILED', 'CLOSED'):
                 self.sids.discard(sid)
+                self.resolve.discard(sid)
             else:
                 self.sids.add(sid)
         elif k == 'setatt':
@@ -305,6 +309,7 @@ class P(core.Prop):
             return c
         state.circuit_factory = circuit_factory
 
+        resolve_sids = set()
         pending = []          # [Deferred or None once fired, kind]
 
         def value_of(kind):
@@ -425,7 +430,13 @@ class P(core.Prop):
                         else:
                             s = ' SOURCE_ADDR=%s:%d' % (ip_text(src[1]), src[2])
                     extra = ' REASON=DONE' if st in ('FAILED', 'CLOSED', 'DETACHED') else ''
-                    send_event('650 STREAM %d %s %d %s:%d%s%s PURPOSE=USER' % (sid, st, cid, host, port, extra, s))
+                    # a DNS request stream (first event NEWRESOLVE, then SENTRESOLVE) keeps its purpose to the end
+                    if st in ('NEWRESOLVE', 'SENTRESOLVE'):
+                        resolve_sids.add(sid)
+                    purpose = 'DNS_REQUEST' if sid in resolve_sids else 'USER'
+                    if st in ('FAILED', 'CLOSED'):
+                        resolve_sids.discard(sid)
+                    send_event('650 STREAM %d %s %d %s:%d%s%s PURPOSE=%s' % (sid, st, cid, host, port, extra, s, purpose))
                     current_answers[0] = []
                 elif kind == 'fire':
                     n = op[1]
@@ -542,11 +553,17 @@ class P(core.Prop):
     def _stream_move(self, rng, sh, want_src=None, finding_ok=False):
         sid = rng.randrange(1, 7)
         cid = rng.choice([0, 0, 0] + list(sh.alive))
-        if sid in sh.sids:
+        if sid in sh.resolve:
+            # the life of a DNS request stream: SENTRESOLVE on the circuit it was attached to, then CLOSED / FAILED
+            st = rng.choice(['SENTRESOLVE', 'SENTRESOLVE', 'CLOSED', 'CLOSED', 'FAILED'])
+            built = [c for c in sh.alive if sh.objs[sh.alive[c]][1] == 'BUILT']
+            if st == 'SENTRESOLVE' and built:
+                cid = rng.choice(built)
+        elif sid in sh.sids:
             st = rng.choice(['SENTCONNECT', 'REMAP', 'SUCCEEDED', 'CLOSED', 'CLOSED', 'FAILED', 'DETACHED',
-                             'CONTROLLER_WAIT', 'SENTRESOLVE'])
+                             'CONTROLLER_WAIT'])
         else:
-            st = rng.choice(['NEW'] * 12 + ['NEWRESOLVE'] * 3 + ['SENTCONNECT', 'REMAP', 'SUCCEEDED', 'DETACHED',
+            st = rng.choice(['NEW'] * 10 + ['NEWRESOLVE'] * 5 + ['SENTCONNECT', 'REMAP', 'SUCCEEDED', 'DETACHED',
                                                                  'CONTROLLER_WAIT', 'CLOSED', 'FAILED'])
         if st in ('NEW', 'NEWRESOLVE', 'CONTROLLER_WAIT'):
             cid = 0
@@ -557,7 +574,7 @@ class P(core.Prop):
             host = rng.choice(HOSTS_EXIT)
         else:
             host = rng.choice(HOSTS_EXIT_INSIDE)
-        port = rng.choice([80, 443, 0, 65535, 8080])
+        port = 0 if (st in ('NEWRESOLVE', 'SENTRESOLVE') or sid in sh.resolve) else rng.choice([80, 443, 0, 65535, 8080])
         if want_src is not None:
             src = want_src
         else:
@@ -852,7 +869,7 @@ class P(core.Prop):
                                     ops = list(pre) + [['setatt', ['custom', 0]]]
                                     if not busy:
                                         ops.append(['reply', True])
-                                    ops.append(['stream', 3, st, 0, 'example.com', 80, ['ip', IPS[0], 4000], [[kind, mode, fl]]])
+                                    ops.append(['stream', 3, st, 0, 'example.com', 80 if st == 'NEW' else 0, ['ip', IPS[0], 4000], [[kind, mode, fl]]])
                                     if late_state:
                                         ops.append(['circ', 5, late_state])
                                     if mode == 'later':
@@ -866,14 +883,14 @@ class P(core.Prop):
             for older in (False, True):          # another circuit existed already (the new object is then #1)
                 for fl in 'dc':
                     for busy in (False, True):
-                        for prio in (False, True):
+                        for prio, st in ((False, 'NEW'), (True, 'NEW'), (False, 'NEWRESOLVE'), (True, 'NEWRESOLVE')):
                             ops = ([['circ', 2, 'BUILT']] if older else []) + [['setatt', 'prio' if prio else ['custom', 0]]]
                             if prio:
                                 ops.append(['prioadd', 0, 1])
                             if not busy:
                                 ops.append(['reply', True])
                             oid = 1 if older else 0
-                            ops.append(['stream', 3, 'NEW', 0, 'example.com', 80, None, [[['circ', oid], 'later', fl]]])
+                            ops.append(['stream', 3, st, 0, 'example.com', 80 if st == 'NEW' else 0, None, [[['circ', oid], 'later', fl]]])
                             ops += [['circ', 7, st] for st in plan]
                             ops += [['fire', 0], ['flush']]
                             out.append({'ops': ops, 'scenario': 'exhaustive'})
